@@ -145,7 +145,7 @@ fn bench_cmd(tr: &Trace, idx: usize) -> String {
 pub fn closed_form(k: u64, rng: &mut Rng) -> (Spec, String) {
     let kinds = gen::KINDS as usize;
     let empty = || (0..kinds).map(|_| Vec::new()).collect::<Vec<_>>();
-    match k % 4 {
+    match k % 5 {
         0 => {
             // Self-saturating model: each event sends two events back to itself.
             let cap = rng.range(1, 6) as usize;
@@ -177,6 +177,27 @@ pub fn closed_form(k: u64, rng: &mut Rng) -> (Spec, String) {
             a.react[0] = vec![Action::Send { port: 0, kind: 0 }];
             let spec = Spec { seed: k, nodes: vec![a, b], cmds: vec![Cmd::Event { node: 0, kind: 0 }], ttl: 3, ..Default::default() };
             (spec, format!("msgloss:{}", m))
+        }
+        4 => {
+            // Events and queries addressed to a mailbox that no longer exists:
+            // nothing is enqueued anywhere, so nothing may be reported as lost
+            // (process_event ignores the failed send, process_query answers
+            // BadQuery) and the simulation keeps working.
+            let mut a = NodeSpec { name: "a".into(), cap: 2, added: true, key_slots: 1, react: empty(), qreact: empty(), ..Default::default() };
+            let gone = NodeSpec { name: "gone".into(), cap: 2, added: false, dropped: true, key_slots: 1, react: empty(), qreact: empty(), ..Default::default() };
+            let b = NodeSpec { name: "b".into(), cap: 2, added: true, key_slots: 1, react: empty(), qreact: empty(), ..Default::default() };
+            a.outs.push(vec![Conn { target: Target::Node(2), map: MapKind::Plain }]);
+            a.react[0] = vec![Action::Send { port: 0, kind: 1 }];
+            let mut cmds = Vec::new();
+            for _ in 0..rng.range(1, 4) {
+                cmds.push(if rng.chance(1, 2) { Cmd::Event { node: 1, kind: 0 } } else { Cmd::Query { node: 1, kind: 0 } });
+                if rng.chance(1, 2) {
+                    cmds.push(Cmd::Event { node: 0, kind: 0 });
+                }
+            }
+            cmds.push(Cmd::Event { node: 0, kind: 0 });
+            let spec = Spec { seed: k, nodes: vec![a, gone, b], cmds, ttl: 3, ..Default::default() };
+            (spec, "ok".into())
         }
         _ => {
             // Query loop inside a sub-model at depth d.
